@@ -1,32 +1,258 @@
-//! Stand-in for the octopii API that distributed-walrus/src/{metadata,controller}.rs use.
-use bytes::Bytes; use std::net::SocketAddr; use std::time::Duration; use std::collections::BTreeSet;
-pub trait StateMachineTrait: Send + Sync { fn apply(&self, command: &[u8]) -> std::result::Result<Bytes, String>; fn snapshot(&self) -> Vec<u8>; fn restore(&self, data: &[u8]) -> std::result::Result<(), String>; fn compact(&self) -> std::result::Result<(), String> { Ok(()) } }
-#[derive(Debug)] pub struct OctopiiError(pub String); impl std::fmt::Display for OctopiiError{fn fmt(&self,f:&mut std::fmt::Formatter<'_>)->std::fmt::Result{write!(f,"{}",self.0)}} impl std::error::Error for OctopiiError{}
-pub type Result<T> = std::result::Result<T, OctopiiError>;
-pub mod rpc {
-    use super::*; use serde::{Serialize, Deserialize};
-    #[derive(Debug, Clone, Serialize, Deserialize)] pub enum RequestPayload { RaftMessage { message: Bytes }, OpenRaft { kind: String, data: Bytes }, Custom { operation: String, data: Bytes } }
-    #[derive(Debug, Clone, Serialize, Deserialize)] pub enum ResponsePayload { AppendEntriesResponse { term: u64, success: bool }, RequestVoteResponse { term: u64, vote_granted: bool }, SnapshotResponse { term: u64, success: bool }, OpenRaft { kind: String, data: Bytes }, CustomResponse { success: bool, data: Bytes }, Error { message: String } }
-    #[derive(Debug, Clone)] pub struct RpcRequest { pub id: u64, pub payload: RequestPayload }
-    #[derive(Debug, Clone)] pub struct RpcResponse { pub id: u64, pub payload: ResponsePayload }
-    pub struct RpcHandler;
-    impl RpcHandler { pub async fn request(&self, _to: SocketAddr, _p: RequestPayload, _t: Duration) -> crate::Result<RpcResponse> { todo!() } }
+//! Stand-in for the octopii API that distributed-walrus/src/{metadata,controller,monitor}.rs
+//! use. Consensus is modelled as one totally ordered command log (`SimRaft`) shared by the
+//! nodes of a simulated cluster: a proposal on the leader appends to the log and is applied
+//! to the leader's state machine at once; application on every follower is a separate event
+//! that the harness fires (in log order). RPCs are delivered to the target node's registered
+//! handler, with a scheduling point before and after. The real octopii (openraft, QUIC)
+//! cannot be compiled offline; this file is part of the trusted base of C22-C24.
+#![allow(warnings)]
+use bytes::Bytes;
+use std::collections::{BTreeMap, BTreeSet};
+use std::future::Future;
+use std::net::SocketAddr;
+use std::pin::Pin;
+use std::sync::{Arc, Mutex};
+use std::time::Duration;
+
+pub trait StateMachineTrait: Send + Sync {
+    fn apply(&self, command: &[u8]) -> std::result::Result<Bytes, String>;
+    fn snapshot(&self) -> Vec<u8>;
+    fn restore(&self, data: &[u8]) -> std::result::Result<(), String>;
+    fn compact(&self) -> std::result::Result<(), String> {
+        Ok(())
+    }
 }
-#[derive(Debug, Clone, serde::Serialize)] pub struct Membership { pub configs: Vec<BTreeSet<u64>> }
-impl Membership { pub fn get_joint_config(&self) -> &Vec<BTreeSet<u64>> { &self.configs } }
-#[derive(Debug, Clone, serde::Serialize)] pub struct StoredMembership { pub m: Membership }
-impl StoredMembership { pub fn membership(&self) -> &Membership { &self.m } }
-#[derive(Debug, Clone, serde::Serialize)] pub struct RaftMetrics { pub current_leader: Option<u64>, pub state: String, pub last_log_index: Option<u64>, pub membership_config: StoredMembership }
-pub struct OctopiiNode;
+
+#[derive(Debug)]
+pub struct OctopiiError(pub String);
+impl std::fmt::Display for OctopiiError {
+    fn fmt(&self, f: &mut std::fmt::Formatter<'_>) -> std::fmt::Result {
+        write!(f, "{}", self.0)
+    }
+}
+impl std::error::Error for OctopiiError {}
+pub type Result<T> = std::result::Result<T, OctopiiError>;
+
+pub type BoxFuture<T> = Pin<Box<dyn Future<Output = T>>>;
+pub type Handler = Arc<dyn Fn(rpc::RpcRequest) -> BoxFuture<rpc::ResponsePayload>>;
+
+pub mod rpc {
+    use super::*;
+    use serde::{Deserialize, Serialize};
+    #[derive(Debug, Clone, Serialize, Deserialize)]
+    pub enum RequestPayload {
+        RaftMessage { message: Bytes },
+        OpenRaft { kind: String, data: Bytes },
+        Custom { operation: String, data: Bytes },
+    }
+    #[derive(Debug, Clone, Serialize, Deserialize)]
+    pub enum ResponsePayload {
+        AppendEntriesResponse { term: u64, success: bool },
+        RequestVoteResponse { term: u64, vote_granted: bool },
+        SnapshotResponse { term: u64, success: bool },
+        OpenRaft { kind: String, data: Bytes },
+        CustomResponse { success: bool, data: Bytes },
+        Error { message: String },
+    }
+    #[derive(Debug, Clone)]
+    pub struct RpcRequest {
+        pub id: u64,
+        pub payload: RequestPayload,
+    }
+    #[derive(Debug, Clone)]
+    pub struct RpcResponse {
+        pub id: u64,
+        pub payload: ResponsePayload,
+    }
+    pub struct RpcHandler {
+        pub(crate) raft: Arc<SimRaft>,
+    }
+    impl RpcHandler {
+        pub async fn request(&self, to: SocketAddr, p: RequestPayload, _t: Duration) -> crate::Result<RpcResponse> {
+            tokio::yield_point("rpc.send").await;
+            let h = {
+                let g = self.raft.inner.lock().unwrap();
+                g.nodes.values().find(|n| n.addr == to).and_then(|n| n.handler.clone())
+            };
+            let Some(h) = h else { return Err(OctopiiError(format!("no route to {}", to))) };
+            let payload = h(RpcRequest { id: 0, payload: p }).await;
+            tokio::yield_point("rpc.recv").await;
+            Ok(RpcResponse { id: 0, payload })
+        }
+    }
+}
+
+pub struct NodeSlot {
+    pub sm: Arc<dyn StateMachineTrait>,
+    pub applied: usize,
+    pub addr: SocketAddr,
+    pub handler: Option<Handler>,
+}
+// the simulated cluster lives on one thread
+unsafe impl Send for NodeSlot {}
+unsafe impl Sync for NodeSlot {}
+
+pub struct SimInner {
+    pub log: Vec<Vec<u8>>,
+    pub leader: u64,
+    pub nodes: BTreeMap<u64, NodeSlot>,
+    /// (node, log index) of every application, in the order they happened
+    pub apply_trace: Vec<(u64, usize)>,
+}
+
+pub struct SimRaft {
+    pub inner: Mutex<SimInner>,
+}
+
+impl SimRaft {
+    pub fn new(leader: u64) -> Arc<Self> {
+        Arc::new(SimRaft { inner: Mutex::new(SimInner { log: vec![], leader, nodes: BTreeMap::new(), apply_trace: vec![] }) })
+    }
+    pub fn add_node(self: &Arc<Self>, id: u64, addr: SocketAddr, sm: Arc<dyn StateMachineTrait>) -> Arc<OctopiiNode> {
+        self.inner.lock().unwrap().nodes.insert(id, NodeSlot { sm, applied: 0, addr, handler: None });
+        Arc::new(OctopiiNode { id, raft: self.clone() })
+    }
+    pub fn set_handler(&self, id: u64, h: Handler) {
+        if let Some(n) = self.inner.lock().unwrap().nodes.get_mut(&id) {
+            n.handler = Some(h);
+        }
+    }
+    /// nodes that have not applied the whole log yet
+    pub fn lagging(&self) -> Vec<u64> {
+        let g = self.inner.lock().unwrap();
+        g.nodes.iter().filter(|(_, n)| n.applied < g.log.len()).map(|(i, _)| *i).collect()
+    }
+    /// apply the next log entry on `id` (no-op when it is up to date)
+    pub fn apply_next(&self, id: u64) {
+        let (cmd, sm, idx) = {
+            let g = self.inner.lock().unwrap();
+            let Some(n) = g.nodes.get(&id) else { return };
+            if n.applied >= g.log.len() {
+                return;
+            }
+            (g.log[n.applied].clone(), n.sm.clone(), n.applied)
+        };
+        let _ = sm.apply(&cmd);
+        let mut g = self.inner.lock().unwrap();
+        if let Some(n) = g.nodes.get_mut(&id) {
+            n.applied = idx + 1;
+        }
+        g.apply_trace.push((id, idx));
+    }
+    pub fn apply_all(&self) {
+        loop {
+            let l = self.lagging();
+            if l.is_empty() {
+                break;
+            }
+            for id in l {
+                self.apply_next(id);
+            }
+        }
+    }
+}
+
+#[derive(Debug, Clone, serde::Serialize)]
+pub struct Membership {
+    pub configs: Vec<BTreeSet<u64>>,
+}
+impl Membership {
+    pub fn get_joint_config(&self) -> &Vec<BTreeSet<u64>> {
+        &self.configs
+    }
+}
+#[derive(Debug, Clone, serde::Serialize)]
+pub struct StoredMembership {
+    pub m: Membership,
+}
+impl StoredMembership {
+    pub fn membership(&self) -> &Membership {
+        &self.m
+    }
+}
+#[derive(Debug, Clone, serde::Serialize)]
+pub struct RaftMetrics {
+    pub current_leader: Option<u64>,
+    pub state: String,
+    pub last_log_index: Option<u64>,
+    pub membership_config: StoredMembership,
+}
+
+pub struct OctopiiNode {
+    id: u64,
+    raft: Arc<SimRaft>,
+}
+unsafe impl Send for OctopiiNode {}
+unsafe impl Sync for OctopiiNode {}
+
 impl OctopiiNode {
-    pub async fn peer_addr_for(&self, _id: u64) -> Option<SocketAddr> { todo!() }
-    pub async fn update_peer_addr(&self, _id: u64, _a: SocketAddr) { todo!() }
-    pub async fn is_leader(&self) -> bool { todo!() }
-    pub async fn propose(&self, _c: Vec<u8>) -> Result<Bytes> { todo!() }
-    pub fn raft_metrics(&self) -> RaftMetrics { todo!() }
-    pub fn rpc_handler(&self) -> std::sync::Arc<rpc::RpcHandler> { todo!() }
-    pub async fn add_learner(&self, _id: u64, _a: SocketAddr) -> Result<()> { todo!() }
-    pub async fn is_learner_caught_up(&self, _id: u64) -> Result<bool> { todo!() }
-    pub async fn promote_learner(&self, _id: u64) -> Result<()> { todo!() }
-    pub fn id(&self) -> u64 { todo!() }
+    pub async fn peer_addr_for(&self, id: u64) -> Option<SocketAddr> {
+        self.raft.inner.lock().unwrap().nodes.get(&id).map(|n| n.addr)
+    }
+    pub async fn update_peer_addr(&self, id: u64, a: SocketAddr) {
+        if let Some(n) = self.raft.inner.lock().unwrap().nodes.get_mut(&id) {
+            n.addr = a;
+        }
+    }
+    pub async fn is_leader(&self) -> bool {
+        self.raft.inner.lock().unwrap().leader == self.id
+    }
+    /// Linearizable proposal: appended to the single log and applied on the leader at once
+    /// (the leader first catches up with the log, in order).
+    pub async fn propose(&self, c: Vec<u8>) -> Result<Bytes> {
+        tokio::yield_point("raft.propose").await;
+        if !self.is_leader().await {
+            return Err(OctopiiError("not the leader".into()));
+        }
+        let idx = {
+            let mut g = self.raft.inner.lock().unwrap();
+            g.log.push(c);
+            g.log.len() - 1
+        };
+        let mut result: std::result::Result<Bytes, String> = Err("not applied".into());
+        loop {
+            let (cmd, sm, at) = {
+                let g = self.raft.inner.lock().unwrap();
+                let n = g.nodes.get(&self.id).expect("leader slot");
+                if n.applied > idx {
+                    break;
+                }
+                (g.log[n.applied].clone(), n.sm.clone(), n.applied)
+            };
+            let r = sm.apply(&cmd);
+            let mut g = self.raft.inner.lock().unwrap();
+            g.nodes.get_mut(&self.id).unwrap().applied = at + 1;
+            let id = self.id;
+            g.apply_trace.push((id, at));
+            if at == idx {
+                result = r;
+            }
+        }
+        tokio::yield_point("raft.proposed").await;
+        result.map_err(OctopiiError)
+    }
+    pub fn raft_metrics(&self) -> RaftMetrics {
+        let g = self.raft.inner.lock().unwrap();
+        RaftMetrics {
+            current_leader: Some(g.leader),
+            state: if g.leader == self.id { "Leader".into() } else { "Follower".into() },
+            last_log_index: if g.log.is_empty() { None } else { Some(g.log.len() as u64) },
+            membership_config: StoredMembership { m: Membership { configs: vec![g.nodes.keys().copied().collect()] } },
+        }
+    }
+    pub fn rpc_handler(&self) -> Arc<rpc::RpcHandler> {
+        Arc::new(rpc::RpcHandler { raft: self.raft.clone() })
+    }
+    pub async fn add_learner(&self, _id: u64, _a: SocketAddr) -> Result<()> {
+        Ok(())
+    }
+    pub async fn is_learner_caught_up(&self, _id: u64) -> Result<bool> {
+        Ok(true)
+    }
+    pub async fn promote_learner(&self, _id: u64) -> Result<()> {
+        Ok(())
+    }
+    pub fn id(&self) -> u64 {
+        self.id
+    }
 }
